@@ -33,7 +33,7 @@ func init() {
 			us = append(us, c02.Units("C14", wire.MonitorC14, "faults1-,periodic")(tier)...)
 			return us
 		},
-		QuickBudget:    90,
+		QuickBudget:    240,
 		ThoroughBudget: 900,
 	})
 }
